@@ -6,6 +6,7 @@ import reccommon as R
 from engine import Op, set_mode
 
 PROP = "C12"
+QUICK_BOOST = 2
 LEAN_MODULES = ["IsoDT.Props.C12", "IsoDT.Props.C12b", "IsoDT.Props.C12mm"]
 RULE = ("recurrences over the 3 notations x bounded (n = 1, 2, ...) / unbounded x anchors in any representation "
         "and zone (incl. 24:00) x exact intervals of many sizes and nominal (month/year, alone or mixed) "
